@@ -276,3 +276,47 @@ where
 pub fn fmt_format_stub(_args: core::fmt::Arguments<'_>) -> String {
     String::new()
 }
+
+// ------------------------------------------------------------------------------------------
+// sqrt: CBMC's library model raises `feraiseexcept` assertions on negative arguments, which is
+// not Rust semantics (NaN).  Contract stub: NaN for NaN/negative, otherwise a non-negative value
+// chosen by the harness (0 at 0, +inf at +inf).
+// ------------------------------------------------------------------------------------------
+pub static mut SQRT_RET32: [f32; LN_SLOTS] = [0.0; LN_SLOTS];
+pub static mut SQRT_CALLS32: usize = 0;
+pub fn set_sqrt32(src: &mut crate::Src, slots: usize) {
+    unsafe {
+        SQRT_CALLS32 = 0;
+        let mut i = 0;
+        while i < slots && i < LN_SLOTS {
+            SQRT_RET32[i] = src.f32();
+            i += 1;
+        }
+    }
+}
+#[cfg(kani)]
+pub fn sqrt_stub_f32(x: f32) -> f32 {
+    unsafe {
+        let k = SQRT_CALLS32;
+        kani::assume(k < LN_SLOTS);
+        SQRT_CALLS32 = k + 1;
+        let r = SQRT_RET32[k];
+        if x.is_nan() || x < 0.0 {
+            kani::assume(r.is_nan());
+        } else if x == 0.0 {
+            kani::assume(r == 0.0);
+        } else if x == f32::INFINITY {
+            kani::assume(r == f32::INFINITY);
+        } else {
+            kani::assume(r > 0.0 && r.is_finite());
+        }
+        r
+    }
+}
+
+/// fused multiply-add: CBMC's fmaf model raises `feraiseexcept`; the unfused form is used instead
+/// (only the summary's std goes through it, which no K-obligation inspects).
+#[cfg(kani)]
+pub fn mul_add_stub_f32(a: f32, b: f32, c: f32) -> f32 {
+    a * b + c
+}
